@@ -2,9 +2,9 @@ CONSTANTS
   P = 46337
   Ds = {2, 3}
   Rs = {1, 2}
-  Offs = {10}
-  Ops = {"marginal", "linear_sum"}
-  PdfKinds = {"PDF:S", "PDF:SL", "PDF:SLD", "DiagPDF:S"}
+  Offs = {0}
+  Ops = {"marginal", "linear_sum", "condition_on", "condition_on_explicit", "entropy"}
+  PdfKinds = {"DiagPDF:S", "DiagPDF:SLD"}
 INIT Init
 NEXT Next
 CHECK_DEADLOCK FALSE
@@ -14,4 +14,8 @@ INVARIANT Inv_PdfNormalised
 INVARIANT Inv_ReportedMass
 INVARIANT Inv_Marginal
 INVARIANT Inv_LinearSum
+INVARIANT Inv_ConditionOn
+INVARIANT Inv_EntropyKL
+INVARIANT Inv_CondCoherent
+INVARIANT Inv_CondOnX
 INVARIANT Inv_Export
